@@ -1,4 +1,5 @@
 import Tw.Model.Snap
+import Tw.Model.SnapFast
 import Tw.Drv.Util
 
 /-! Line protocol for domain `snap` (implementation side: `harness/src/d_snap.rs`).
@@ -92,15 +93,12 @@ def parseOsz (s : String) : Option (Nat → Option Nat) :=
   | "tw05" => some (tableFn Tw.Gen.Snap.objSize_tw05)
   | _ => none
 
-/-- `RawBuilder`: add the items in order; error = `(index, error)` -/
+/-- `RawBuilder`: add the items in order; error = `error@index`.  Runs the tree-backed twin, which
+`Tw.Snap.Fast.buildFast_eq` proves equal to the list model `Fast.buildList … 0 RawSnap.empty`. -/
 def buildRaw (its : List (Nat × Nat × List Int)) : Except String RawSnap :=
-  let rec go (i : Nat) (s : RawSnap) : List (Nat × Nat × List Int) → Except String RawSnap
-    | [] => .ok s
-    | (t, id, d) :: r =>
-      match s.addItem (keyOf t id) d with
-      | .error e => .error s!"{e.name}@{i}"
-      | .ok s' => go (i + 1) s' r
-  go 0 RawSnap.empty its
+  match Fast.buildFast (its.map fun (t, id, d) => (keyOf t id, d)) with
+  | .ok s => .ok s
+  | .error (i, e) => .error s!"{e.name}@{i}"
 
 /-! ### results -/
 
@@ -150,7 +148,7 @@ def opPair (osz : Nat → Option Nat) (a b : RawSnap) : String :=
       let wb := match wi with
         | none => "panic"
         | some xs => short (toHex (packInts xs))
-      s!"d:{short (fmtDelta d)} wi:{fmtOptInts wi} wb:{wb} ri:{ri} rb:{rb} ap:{fmtRawRes (applyDelta a d)}"
+      s!"d:{short (fmtDelta d)} wi:{fmtOptInts wi} wb:{wb} ri:{ri} rb:{rb} ap:{fmtRawRes (Fast.applyDeltaFast a d)}"
   let si := short (fmtWriteInts b)
   let sb := match b.writeBytes bigCap with
     | .ok bs => short (toHex bs)
@@ -165,7 +163,7 @@ def opPair (osz : Nat → Option Nat) (a b : RawSnap) : String :=
       let rd' := if rd.isEmpty then [0, 0, 0] else rd
       let rr := readDelta osz (.ints rd')
       let (rm, rap) := match rr with
-        | .ok (dl, _) => (if refDeltaB a b dl then "1" else "0", fmtRawRes (applyDelta a dl))
+        | .ok (dl, _) => (if refDeltaB a b dl then "1" else "0", fmtRawRes (Fast.applyDeltaFast a dl))
         | _ => ("0", "-")
       s!"ref:{short (fmtInts rd)} rs:{short (fmtInts (refSnapInts ub))} rr:{fmtReadDelta rr} rm:{rm} rap:{rap}"
     else "ref:na"
@@ -211,13 +209,13 @@ def followUps (s : Snap) : String :=
     | _ => "0"
   let selfDelta := match createDelta s.raw s.raw with
     | none => "panic"
-    | some d => s!"{short (fmtDelta d)}>{fmtSnapRes (s.readWithDelta d)}"
+    | some d => s!"{short (fmtDelta d)}>{fmtSnapRes (Fast.readWithDeltaFast s d)}"
   let fromEmpty := match createDelta RawSnap.empty s.raw with
     | none => "panic"
-    | some d => fmtSnapRes (Snap.empty.readWithDelta d)
+    | some d => fmtSnapRes (Fast.readWithDeltaFast Snap.empty d)
   let toEmpty := match createDelta s.raw RawSnap.empty with
     | none => "panic"
-    | some d => fmtSnapRes (s.readWithDelta d)
+    | some d => fmtSnapRes (Fast.readWithDeltaFast s d)
   s!"n:{s.raw.items.length} rt:{rt} sd:{selfDelta} fe:{fromEmpty} te:{toEmpty} rec:{fmtRecycle s}"
 
 def opRsnap (r : Res (Snap × List Warning)) : String :=
@@ -240,7 +238,7 @@ def opRdelta (osz : Nat → Option Nat) (src : Src) (base : List Int) : String :
         | _, _ => "0"
     let ap := match Snap.readFromInts base with
       | .ok (a, _) =>
-        match a.readWithDelta d with
+        match Fast.readWithDeltaFast a d with
         | .ok (s, ws') => s!"ok:{fmtSnap s}:{fmtWs ws'} {followUps s}"
         | .err e => s!"err:{e.name}"
         | .panic _ => "panic"
@@ -322,7 +320,7 @@ def vmStep (vm : VM) (tok : String) : VM :=
             | none => .panic "write"
             | some xs =>
               match readDelta (fun _ => none) (.ints xs) with
-              | .ok (d', []) => vm.prev.readWithDelta d'
+              | .ok (d', []) => Fast.readWithDeltaFast vm.prev d'
               | .ok (_, _) => .panic "delta-warnings"
               | .err e => .err e
               | .panic p => .panic p
